@@ -42,7 +42,7 @@ type tally struct {
 func run(c *core.Ctx) error {
 	th := c.Thorough()
 	devs := c.KnownDeviations()
-	offsets := []int{0, 0, 120, -330, 345, 840, -720}
+	offsets := []int{0, 0, 120, -330, 345, 840, -720, -30, 30, -59, -1} // minutes; -59..-1: the sign is not carried by the hour part
 	ta := &tally{byOp: map[string]int{}, sampled: map[string]bool{}}
 	var elkSample []*Gen
 
